@@ -1,8 +1,18 @@
 import NetaddrVerif.Model.Proto
-/-! Driver ops of property C13 (stub: filled in by the property's model). -/
+import NetaddrVerif.Model.SpanErr
+/-! Driver ops of property C13.
+    `span_nets [N:ver:val:plen,…]` → `ver:val/plen` | `!value` | `!type`
+    (the same-family core is also reachable as `spanning ver [..]` in Driver/Cidr.lean) -/
 namespace NV.Driver.C13
 open NV NV.Proto
 
-def handle (_op : String) (_args : List String) : Option String := none
+def handle (op : String) (args : List String) : Option String :=
+  match op, args with
+  | "span_nets", [l] => do
+    let l ← (← parseList l).mapM parseNet
+    match Span.spanningCidrNets l with
+    | .ok n => pure (showNet n)
+    | .error e => pure (showErr e)
+  | _, _ => none
 
 end NV.Driver.C13
